@@ -105,7 +105,9 @@ where
                     .periodic_images(position, 3, false)
                     .map(|p| self.shape.transform(&p))
                 {
-                    sum += shape1.energy(&shape2);
+                    // Each pair of a molecule with a periodic image is found twice, once from
+                    // either molecule, and belongs half to this cell
+                    sum += 0.5 * shape1.energy(&shape2);
                 }
             }
         }
